@@ -22,7 +22,7 @@ import threading
 import hashlib
 
 from ..core.agent import BioAgent
-from ..core.types import Signal, ActionProtein, ApprovalToken
+from ..core.types import Signal, ActionProtein, ApprovalToken, describe_error
 from ..state.metabolism import ATP_Store
 
 
@@ -232,7 +232,7 @@ class CoherentFeedForwardLoop:
                 success=False,
                 action="ERROR",
                 blocked=True,
-                block_reason=f"Agent error: {e}",
+                block_reason=f"Agent error: {describe_error(e)}",
                 processing_time_ms=(time.time() - start_time) * 1000,
                 gate_logic=self.gate_logic
             )
